@@ -199,7 +199,8 @@ def run_C16(tier):
     base = ['L|L|dM', 'L|L|L|dM', 'R|R|L|dM', 'L|R|L|dm', 'R|L|dM dM', 'L|L|dM|dM', 'Ww|@1 S|dM', 'Ww|@1 S|dC', 'Ww|Wr|@2 S|dC', 'Ww|Ww|@2 B|dC', 'Wr|L|@1 S|dM', 'Ww|L|@1 S|dc dm', 'Wwd|@1 S|dC', 'Wwd|Ww|@2 S|dM']
     for p in base:
         n = p.count('|') + 1
-        J.append(Job('c-futex', 'cv', p, (3 if n <= 3 else 3) if q else 4, 1 if 'd|' in p or 'Wwd' in p else 0))
+        heavy = n >= 4 and 'W' in p
+        J.append(Job('c-futex', 'cv', p, (2 if heavy else 3) if q else (3 if heavy else 4), 1 if 'd|' in p or 'Wwd' in p else 0))
         J.append(Job('c-binsem', 'cv', p, 2, 0))
     for kind in 'mc':
         for k in range(4):
@@ -207,7 +208,7 @@ def run_C16(tier):
     return generic('C16', tier, J, 'DFS over schedules of lockers / waiters / wakers with a thread calling the debug-state functions (all mutual-exclusion, progress and wake-up oracles in force); exhaustive n = 0..80 x 0..3 queued waiters x 4 functions against the untruncated reference with exact-size buffers between red zones', sample_every=4)
 
 TABLE = {
-    'C17': seqchecks.run_C17, 'C18': seqchecks.run_C18,
+    'C15': seqchecks.run_C15, 'C17': seqchecks.run_C17, 'C18': seqchecks.run_C18,
     'C01': run_C01, 'C03': run_C03, 'C04': run_C04, 'C05': run_C05, 'C06': run_C06, 'C07': run_C07, 'C08': run_C08, 'C09': run_C09, 'C10': run_C10, 'C11': run_C11, 'C13': run_C13, 'C14': run_C14, 'C16': run_C16,
     'C02': run_C02,
     'C12': run_C12,
@@ -219,3 +220,29 @@ def run(prop, tier):
     except mcdriver.FrameworkError as e:
         print('FRAMEWORK-ERROR:', e, file=sys.stderr)
         return 2
+
+# ---------------------------------------------------------------- C19
+def run_C19(tier):
+    import json, subprocess
+    t0 = time.time()
+    shapes = ['R', 'RC', 'RCG', 'RCS', 'RCGS', 'RS', 'RCGScz', 'Rc', 'Rcz', 'RCc', 'RSz', 'RCGc']
+    nsmc = mcdriver.build('c-futex')
+    J = []
+    counted = {}
+    for sh in shapes:
+        r = subprocess.run([nsmc, '--family', 'alloc', '--program', '0:' + sh, '--P', '0', '--E', '0'], stdout=subprocess.PIPE, text=True)
+        d = json.loads(r.stdout.strip().splitlines()[-1])
+        n = int(list(d['outcomes'])[0].split('allocs=')[1].split()[0]) if d['outcomes'] else 0
+        if n == 0:
+            raise mcdriver.FrameworkError('could not count the allocations of shape ' + sh)
+        counted[sh] = n
+        for k in range(0, n + 1):
+            J.append(Job('c-futex', 'alloc', '%d:%s' % (k, sh), 0, 0))
+            if 'R' in sh and len(sh) <= 4:
+                J.append(Job('c-futex', 'alloc', '%d:%s:c' % (k, sh), 2 if tier == 'quick' else 3, 0))
+    res, skipped = mcdriver.run_jobs(J, wall(tier), sample_every=7)
+    faults = sum(1 for j in J if not j.program.startswith('0:'))
+    return mcdriver.finish('C19', tier, 'fault_enumeration', res, skipped, t0, assumptions=ASSUME_MC + ['the allocation that creates a thread\'s waiter record belongs to the mutex layer, not to the constructors, and is performed before the fault is armed'],
+        technique_note='fault enumeration: for every scenario shape the constructors\' allocations are counted in a fault-free run and then each one is failed in turn; sequentially, and with a second thread polling the intended parent under DFS over schedules',
+        extra_cov={'evaluations': len(J), 'distinct_nontrivial': faults, 'rule': 'scenario shapes ' + ', '.join('%s(%d allocations)' % (k, v) for k, v in counted.items()) + '; one run per failed allocation index (non-trivial = an allocation actually fails), plus the fault-free run; shapes of <= 4 objects also with a concurrent user of the parent'})
+TABLE['C19'] = run_C19
